@@ -4,8 +4,9 @@
 // and handed to the real HttpStateData::httpBuildRequestHeader() (src/http.cc: getList(Connection), the loop over
 // copyOneHeaderFromClientsideRequestToUpstreamRequest(), addVia, X-Forwarded-For, Host, httpFixupAuthentication(), Cache-Control,
 // Squid's own Connection and Transfer-Encoding, httpHdrMangleList) with symbolic Http::StateFlags and cache_peer login mode.
-// Reply direction: the block is parsed as a reply header and HttpHeader::removeHopByHopEntries() (what
-// clientReplyContext::buildReplyHeader() and Http::One::Server::writeControlMsgAndCall() call) is applied.
+// Reply direction: the block is parsed as an origin reply header and (a) handed to the real clientReplyContext::buildReplyHeader()
+// for a cache miss being relayed (second TU harness/C04_reply.cc, which #includes src/client_side_reply.cc), (b) given to
+// HttpHeader::removeHopByHopEntries() alone (what Http::One::Server::writeControlMsgAndCall() applies to 1xx messages).
 //
 // Symbolic: the value bytes of the Connection field(s) (any byte except NUL, CR, LF, DQUOTE: separators, OWS, empty elements,
 // case, garbage), the name bytes of one extension field (any tchar), the flags. Concrete: the other client fields -- one of
@@ -14,9 +15,11 @@
 // Oracle: refListHas() (C04_fwd.h), a direct RFC 9110 5.6.1 list membership test on the raw Connection value bytes, and the
 // property's own list of hop-by-hop names; the outgoing header is inspected by field-name text.
 //   (L) a client field whose name is an element of a received Connection value is not in the outgoing header
-//   (H) no Keep-Alive, TE, Trailer, Upgrade, Proxy-Connection, Proxy-Authenticate field is in the outgoing header; Connection
-//       appears only as Squid's own single "keep-alive"/"close" (request) / not at all (reply kernel)
-//   (T) Transfer-Encoding appears in the outgoing request only as Squid's own single "chunked", and only when Squid chunks
+//   (H) no Keep-Alive, TE, Trailer, Upgrade, Proxy-Connection, Proxy-Authenticate field is in the outgoing header (Proxy-Authenticate
+//       reaches the client only from a cache_peer with login=PASS/PASSTHRU, never from an origin); Connection appears only as
+//       Squid's own single "keep-alive"/"close" (not at all after removeHopByHopEntries() alone)
+//   (T) Transfer-Encoding appears in the outgoing message only as Squid's own single "chunked": in a request only when Squid
+//       chunks the body, in a reply only towards an HTTP/1.1 client
 //   (P) next hop is an origin server => no Proxy-Authorization field, and (unless the cache_peer is configured login=PROXYPASS)
 //       no outgoing field carries the client's proxy credentials
 //   (E) guard against a vacuous/over-eager filter: an end-to-end field that no Connection element names (even under Squid's
@@ -266,5 +269,5 @@ extern "C" void c04_req_short(void) { const Family &f = family(0, 2); request(f.
 extern "C" void c04_req_edges(void) { const Family &f = family(2, 2); request(f.conn1, f.conn2, f.xname, false); }
 extern "C" void c04_req_named(void) { const Family &f = family(4, 3); request(f.conn1, f.conn2, f.xname, false); }
 extern "C" void c04_req_flags(void) { const Family &f = Families[7]; request(f.conn1, f.conn2, f.xname, true); }
-extern "C" void c04_rep_build(void) { const Family &f = family(T(2, 0), T(1, 4)); replyBuild(f.conn1, f.conn2, f.xname); }
+extern "C" void c04_rep_build(void) { const Family &f = family(T(2, 0), T(1, 3)); replyBuild(f.conn1, f.conn2, f.xname); }
 extern "C" void c04_rep_lists(void) { const Family &f = family(0, 7); reply(f.conn1, f.conn2, f.xname); }
